@@ -7,7 +7,7 @@
    statement  forall bs, run c bs = run c [concat bs]  (any batching of the same
    row sequence, including empty batches, equals the single-batch run). *)
 From SigM Require Import Base Pipe.
-From SigP Require Import BaseProofs PipeProofs.
+From SigP Require Import BaseProofs PipeProofs PipeRewindProofs.
 From Coq Require Import Permutation.
 Open Scope N_scope.
 
@@ -299,3 +299,160 @@ Theorem C06_fillnull_all_columns_split_refuted :
      <> tp_sem (fillnull_tp (VStr [48])) (concat [fn_s1; fn_s2]).
 Proof. exact fillnull_split_refuted_thm. Qed.
 Print Assumptions C06_fillnull_all_columns_split_refuted.
+
+(* ==== one or two passes: a command in front of a two-pass command is rewound ==== *)
+(* Pipe.v level C: a chain of DataProcessors is a stream over a stream ... over the source; a
+   two-pass DataProcessor ends its first pass with dp.Rewind(), which rewinds everything in front
+   of it (streams, then processor.Rewind()) and reads it a second time.  [replayable s R]: the
+   stream s delivers the rows R in its first pass and again in every later pass, at whatever
+   moment of a pass (before the first Fetch, between two Fetches, after io.EOF) it is rewound. *)
+
+(* the source, for any batching and both EOF conventions *)
+Theorem C06_rewound_source_replayable : forall eof_with all,
+  replayable (src_stream eof_with all) (concat all).
+Proof. exact src_replayable. Qed.
+Print Assumptions C06_rewound_source_replayable.
+
+(* a streaming processor (head, dedup, streamstats, row-wise) whose Rewind() puts it back into its
+   initial state, behind a replayable stream: replayable with its one-pass meaning *)
+Theorem C06_rewound_streaming_stage : forall (c : command) (rw : st c -> st c) (up : stream),
+  (forall bs, run c bs = run c [concat bs]) -> (forall s, rw s = init c) ->
+  forall R, replayable up R -> replayable (dp_stream (proc_rw c rw) streaming_flags up) (run c [R]).
+Proof. exact stage_streaming. Qed.
+Print Assumptions C06_rewound_streaming_stage.
+
+(* a bottleneck processor that keeps its final result and hands it out through
+   GetFinalResultIfExists (tail, sort, stats, top, rare), with a Rewind() that does nothing *)
+Theorem C06_rewound_cached_stage : forall (c : command) (seal : st c -> st c) (out : st c -> option batch)
+  (up : stream),
+  (forall bs, run c bs = run c [concat bs]) -> silent c ->
+  (forall a, opt_rows (out (seal a)) = finish c a) ->
+  forall R, replayable up R -> replayable (dp_stream (proc_cached c seal out) bottleneck_flags up) (run c [R]).
+Proof. exact stage_cached. Qed.
+Print Assumptions C06_rewound_cached_stage.
+
+(* a two-pass processor behind a replayable stream: every row transformed with the summary of
+   the whole one-pass output of what is in front; itself replayable (two-pass behind two-pass) *)
+Theorem C06_rewound_two_pass_stage : forall (t : twopass) (up : stream) R,
+  replayable up R -> replayable (dp_stream (twopass_proc t) twopass_flags up) (tp_sem t R).
+Proof. exact stage_twopass. Qed.
+Print Assumptions C06_rewound_two_pass_stage.
+
+(* chains of any length over such stages, any number of two-pass commands anywhere: the consumer
+   receives the composition of the one-pass meanings, for any batching of the source *)
+Theorem C06_rewound_chain_meets_composition : forall stages sems eof_with bs,
+  Forall2 good_stage stages sems ->
+  stream_rows (build_chain (src_stream eof_with bs) stages) = Some (sems_apply sems (concat bs)).
+Proof. exact rewound_chain_meaning. Qed.
+Print Assumptions C06_rewound_chain_meets_composition.
+
+Theorem C06_rewound_chain_batching_invariant : forall stages sems ew ew' bs bs',
+  Forall2 good_stage stages sems -> concat bs = concat bs' ->
+  stream_rows (build_chain (src_stream ew bs) stages) = stream_rows (build_chain (src_stream ew' bs') stages).
+Proof. exact rewound_chain_batching_invariant. Qed.
+Print Assumptions C06_rewound_chain_batching_invariant.
+
+(* the processors as the code rewinds them are such stages *)
+Theorem C06_rewound_processors_are_good_stages :
+  (forall n, good_stage (RStage (head_proc n) streaming_flags) (fun R => firstn (N.to_nat n) R))
+  /\ (forall cond o, good_stage (RStage (head_expr_proc cond o) streaming_flags) (fun R => run (head_expr_cmd cond o) [R]))
+  /\ (forall H o, good_stage (RStage (dedup_proc H o) streaming_flags) (fun R => run (dedup_cmd H o) [R]))
+  /\ (forall o, good_stage (RStage (streamstats_proc o) streaming_flags) (fun R => run (streamstats_cmd false o) [R]))
+  /\ (forall f, good_stage (RStage (rowwise_proc f) streaming_flags) (flat_map f))
+  /\ (forall n, good_stage (RStage (tail_proc n) bottleneck_flags) (fun R => rev (lastN n R)))
+  /\ (forall is_top limit fields countf,
+        good_stage (RStage (agg_proc (toprare_cmd is_top limit fields countf)) bottleneck_flags)
+                   (fun R => run (toprare_cmd is_top limit fields countf) [R]))
+  /\ (forall by_fields vf countf sumf,
+        good_stage (RStage (agg_proc (gstats_cmd by_fields vf countf sumf)) bottleneck_flags)
+                   (fun R => run (gstats_cmd by_fields vf countf sumf) [R]))
+  /\ (forall (m : monoid) inj render,
+        (forall a b c, mop m a (mop m b c) = mop m (mop m a b) c) ->
+        (forall a, mop m (mzero m) a = a) -> (forall a, mop m a (mzero m) = a) ->
+        good_stage (RStage (agg_proc (stats_cmd m inj render)) bottleneck_flags) (fun R => render (magg m inj R)))
+  /\ (forall t, good_stage (RStage (twopass_proc t) twopass_flags) (tp_sem t)).
+Proof.
+  repeat split; [exact good_head | exact good_head_expr | exact good_dedup | exact good_streamstats
+                | exact good_rowwise | exact good_tail | exact good_toprare | exact good_gstats
+                | exact good_stats | exact gs_twopass].
+Qed.
+Print Assumptions C06_rewound_processors_are_good_stages.
+
+(* spelled out: tail N / head N in front of any two-pass command *)
+Theorem C06_tail_then_two_pass : forall n t eof_with bs,
+  stream_rows (build_chain (src_stream eof_with bs)
+                 [RStage (tail_proc n) bottleneck_flags; RStage (twopass_proc t) twopass_flags])
+  = Some (tp_sem t (rev (lastN n (concat bs)))).
+Proof. exact tail_then_two_pass. Qed.
+Print Assumptions C06_tail_then_two_pass.
+
+Theorem C06_head_then_two_pass : forall n t eof_with bs,
+  stream_rows (build_chain (src_stream eof_with bs)
+                 [RStage (head_proc n) streaming_flags; RStage (twopass_proc t) twopass_flags])
+  = Some (tp_sem t (firstn (N.to_nat n) (concat bs))).
+Proof. exact head_then_two_pass. Qed.
+Print Assumptions C06_head_then_two_pass.
+
+(* what the hypotheses on Rewind() exclude: a tail whose Rewind clears only the EOF flag (tail 5
+   over rows 1,2,3 -> 3,2,1,1,2), a head whose Rewind keeps numRecordsSent (nothing in pass two) *)
+Theorem C06_tail_rewind_clearing_eof_refuted :
+  stream_rows (build_chain (src_stream false [[rid 1; rid 2; rid 3]])
+                 [RStage (tail_proc_gen 5 (fun s => (fst s, false))) bottleneck_flags;
+                  RStage (twopass_proc fill0) twopass_flags])
+  = Some [rid 3; rid 2; rid 1; rid 1; rid 2]
+  /\ tp_sem fill0 (rev (lastN 5 [rid 1; rid 2; rid 3])) = [rid 3; rid 2; rid 1].
+Proof. exact tail_rewind_clearing_eof_refuted. Qed.
+Print Assumptions C06_tail_rewind_clearing_eof_refuted.
+
+Theorem C06_head_rewind_keeping_count_refuted :
+  stream_rows (build_chain (src_stream false [[rid 1]; [rid 2]; [rid 3]; [rid 4]])
+                 [RStage (proc_rw (head_cmd 2) (fun s => s)) streaming_flags;
+                  RStage (twopass_proc fill0) twopass_flags])
+  = Some []
+  /\ tp_sem fill0 (firstn 2 [rid 1; rid 2; rid 3; rid 4]) = [rid 1; rid 2].
+Proof. exact head_rewind_keeping_count_refuted. Qed.
+Print Assumptions C06_head_rewind_keeping_count_refuted.
+
+(* ---- known defect cached_result_rewritten_before_two_pass ----
+   Full statement (FALSE for the code, see _refuted): with a row-wise command f between a
+   bottleneck that hands out its kept IQR (tail, sort) and a two-pass command t the chain gives
+   tp_sem t (map f rows).  The IQR is the same object in both passes and f writes into it:
+   [alias_two_pass].  Exact guard: f is idempotent. *)
+Theorem C06_kept_result_rewritten_guarded : forall f t rows, (forall r, f (f r) = f r) ->
+  alias_two_pass f t rows = tp_sem t (map f rows).
+Proof. exact alias_two_pass_guarded. Qed.
+Print Assumptions C06_kept_result_rewritten_guarded.
+
+(* tail | eval v=v+1 | fillnull value=0 over one row v=0: v=2 instead of v=1 *)
+Theorem C06_kept_result_rewritten_refuted :
+  alias_two_pass incr_v fill0 [[(fvv, VNum 0)]] = [[(fvv, VNum 2)]]
+  /\ tp_sem fill0 (map incr_v [[(fvv, VNum 0)]]) = [[(fvv, VNum 1)]].
+Proof. exact alias_two_pass_refuted. Qed.
+Print Assumptions C06_kept_result_rewritten_refuted.
+
+Example C06_kept_result_rewritten_guard_satisfiable :
+  alias_two_pass (fun r => set_field r fvv (VNum 7)) fill0 [[(fvv, VNum 0)]]
+  = tp_sem fill0 (map (fun r => set_field r fvv (VNum 7)) [[(fvv, VNum 0)]]).
+Proof. exact alias_two_pass_guard_satisfiable. Qed.
+
+(* ---- known defect stats_without_by_doubled_before_two_pass ----
+   Full statement (FALSE for the code): stats without BY in front of a two-pass command t gives
+   tp_sem t (run c [rows]).  Every extraction of the result merges the collected statistics once
+   more: [stats_noby_two_pass].  Exact guard: the aggregate of the input taken twice equals the
+   aggregate of the input (max, min; not count, sum, avg). *)
+Theorem C06_stats_without_by_extracted_twice_guarded : forall c t rows,
+  run c [rows ++ rows] = run c [rows] -> stats_noby_two_pass c t rows = tp_sem t (run c [rows]).
+Proof. exact stats_noby_two_pass_guarded. Qed.
+Print Assumptions C06_stats_without_by_extracted_twice_guarded.
+
+(* stats count, sum(v) | fillnull value=0 over one row v=3: count 2, sum 6 *)
+Theorem C06_stats_without_by_extracted_twice_refuted :
+  stats_noby_two_pass (gstats_cmd [] fvv fcnt fsum) fill0 [[(fvv, VNum 3)]]
+    = [[(fcnt, VNum 2); (fsum, VNum 6)]]
+  /\ tp_sem fill0 (run (gstats_cmd [] fvv fcnt fsum) [[[(fvv, VNum 3)]]]) = [[(fcnt, VNum 1); (fsum, VNum 3)]].
+Proof. exact stats_noby_two_pass_refuted. Qed.
+Print Assumptions C06_stats_without_by_extracted_twice_refuted.
+
+Example C06_stats_without_by_guard_satisfiable :
+  run (gstats_cmd [] fvv fcnt fsum) [[] ++ []] = run (gstats_cmd [] fvv fcnt fsum) [[]].
+Proof. exact stats_noby_guard_satisfiable. Qed.
